@@ -31,8 +31,9 @@ class Module:
         if name in CANONICALISE:
             canonicalise_locals(self.tree)
         self.normal_log = {}
-        self.identifiers = {n.id for n in ast.walk(self.tree) if isinstance(n, ast.Name)} | \
-            {n.attr for n in ast.walk(self.tree) if isinstance(n, ast.Attribute)} | \
+        # names this module takes from other modules: imported names and attribute names (plain local identifiers of
+        # another module say nothing about this one)
+        self.identifiers = {n.attr for n in ast.walk(self.tree) if isinstance(n, ast.Attribute)} | \
             {a.name for n in ast.walk(self.tree) if isinstance(n, ast.ImportFrom) for a in n.names}
         self._symtable = None
         self._funcs = None
